@@ -45,6 +45,11 @@ func policyHeaders(policy string, now time.Time) http.Header {
 	case policy == "expires-10":
 		h.Set("Date", now.UTC().Format(http.TimeFormat))
 		h.Set("Expires", now.UTC().Add(-10*time.Second).Format(http.TimeFormat))
+	case policy == "expires-epoch":
+		// an explicit expiry at the start of Unix time, no Date: stale on arrival (and a value that "zero" might stand for elsewhere)
+		h.Set("Expires", "Thu, 01 Jan 1970 00:00:00 GMT")
+	case policy == "expires-epoch+1":
+		h.Set("Expires", "Thu, 01 Jan 1970 00:00:01 GMT")
 	case policy == "max-age+no-store":
 		h.Set("Cache-Control", "max-age=3600, no-store")
 	}
@@ -202,7 +207,7 @@ func docVersion(d *ld.RemoteDocument) int {
 	return -1
 }
 
-var c19Policies = []string{"max-age=3600", "max-age=0", "max-age=3", "no-store", "private", "none", "expires+3600", "expires-10", "max-age+no-store"}
+var c19Policies = []string{"max-age=3600", "max-age=0", "max-age=3", "no-store", "private", "none", "expires+3600", "expires-10", "max-age+no-store", "expires-epoch", "expires-epoch+1"}
 
 func emitLoaderHistory(out *Out, r *Rng) {
 	cfg := loaderCfg{cacheMode: []string{"memory", "none", "virtual", "virtual", "virtual"}[r.Intn(5)]}
